@@ -9,7 +9,8 @@ Driver for C11.  obs := item;item;…  item := `<q|a>/<hex key>/<answer>/<fresh>
 open Proto C11
 
 structure Item where
-  aggregate : Bool
+  aggregate : Bool      -- not a plain query: an aggregate (`a`) or a query after a set_config (`k`)
+  isAgg : Bool
   key : String
   answer : String
   fresh : String
@@ -17,7 +18,7 @@ structure Item where
 
 def parseItem (s : String) : Option Item :=
   match s.splitOn "/" with
-  | [k, key, a, f, h] => some ⟨k = "a", key, a, f, h = "1"⟩
+  | [k, key, a, f, h] => some ⟨k != "q", k = "a", key, a, f, h = "1"⟩
   | _ => none
 
 def memoOf (cfg : String) : Bool := cfg.endsWith "m1"
@@ -47,7 +48,8 @@ def oracleLine (line : String) : String :=
             let distinctAns := (items.map (·.answer)).eraseDups.length
             joinSp (["ok", s!"queries{items.length}", if memoOf cfg then "memo" else "nomemo"]
               ++ (if hits > 0 then ["cache_hit"] else [])
-              ++ (if items.any (·.aggregate) then ["aggregate"] else [])
+              ++ (if items.any (·.isAgg) then ["aggregate"] else [])
+              ++ (if items.any (fun it => it.aggregate && !it.isAgg) then ["reconfigured"] else [])
               ++ (if distinctAns > 1 then ["answer_changes", "nontrivial"] else []))
       | none => "bad-input"
     | _ => "bad-input"
